@@ -292,7 +292,7 @@ int supervise (Runner& runner, const Options& opt)
         last_seq = s;
         last_change = now_s ();
       }
-      else if (now_s () - last_change > 30.0)
+      else if (now_s () - last_change > 120.0)
       {
         kill (pid, SIGKILL);
         waitpid (pid, &status, 0);
